@@ -164,6 +164,25 @@ theorem add_residue_is_clamp (ws : Array Nat) (rb : Array Int) (y0 x0 stride : N
   rw [h2 k hk hlt]
   exact Vp8IntraProof.clampByte_spec _
 
+
+/-- **a 16x16-predicted luma macroblock is `clamp(prediction + residue)` sample by sample.**  For
+    every workspace with its border, every 16x16 mode (DC with either availability, V, H, TM), every
+    residue (any 384 integers) and every sample (r, c) of the macroblock: what `intra_predict_luma`
+    leaves in the workspace (model `Vp8Intra.lumaRecon`, tied through hook 0765b56) is the predicted
+    sample - the reference predictor's, by `vertical_horizontal_are_reference` / `truemotion_is_reference`
+    / `dc_is_reference` - plus the residue of the sample's 4x4 block at its raster position, clamped
+    to 0..255: the sixteen `add_residue` calls neither miss nor touch twice any sample. -/
+theorem luma16_is_prediction_plus_residue (mbx mby lumaMode : Nat) (hm : lumaMode ≠ 4) (bmodes : Array Nat) (res : Array Int) (ws : Array Nat)
+    (hres : res.size = 384) (hws : ws.size = 357) (r c : Nat) (hr : r < 16) (hc : c < 16) :
+    (Vp8Intra.lumaRecon mbx mby lumaMode bmodes res ws).getD (Vp8IntraProof.at16 r c) 0 =
+      Vp8Intra.clampByte (res.getD (16 * ((r / 4) * 4 + c / 4) + 4 * (r % 4) + c % 4) 0 +
+        ((match lumaMode with
+          | 1 => Vp8Pred.predict 10 ws 16 1 1 21 true true
+          | 2 => Vp8Pred.predict 11 ws 16 1 1 21 true true
+          | 3 => Vp8Pred.predict 1 ws 16 1 1 21 true true
+          | _ => Vp8Pred.predict 12 ws 16 1 1 21 (mby != 0) (mbx != 0)).getD (Vp8IntraProof.at16 r c) 0 : Nat)) :=
+  Vp8IntraProof.luma16_recon mbx mby lumaMode hm bmodes res ws hres hws r c hr hc
+
 /-! ### loop-filter kernels = RFC 6386 section 15 -/
 
 def seg (e : Edge) : RFC.LF.Seg := ⟨e.p3, e.p2, e.p1, e.p0, e.q0, e.q1, e.q2, e.q3⟩
